@@ -78,7 +78,16 @@ def run(ctx: Ctx):
     jobs = []
     for i in range(n):
         p = ML.gen_params(ctx.rng, n_einsums=2 if i % 2 == 0 else None, kind="matmuls" if i % 2 == 0 else None)
-        jobs.append((p, METRIC_SETS[i % len(METRIC_SETS)]))
+        mets = METRIC_SETS[i % len(METRIC_SETS)]
+        if i % 4 == 3:
+            # directed stream: many returned rows that share one pmapping template with different tile shapes
+            # (single Einsum, divisor-rich bounds, tight finite buffer, usage requested as an objective)
+            p = ML.gen_params(ctx.rng, n_einsums=1, kind="matmuls", levels=2, finite_glb=True)
+            p["workload"].update(M=8, KN=8)
+            p["glb_size"] = ctx.rng.choice([200, 320, 520]) * p["bits"] // 8
+            p["glb_tp"] = ctx.rng.choice([2, 4])
+            mets = ["ENERGY", "LATENCY", "RESOURCE_USAGE"]
+        jobs.append((p, mets))
     results = ML.pool_map(work, jobs, workers=8)
     drv = ctx.driver()
     for (p, mets), res in zip(jobs, results):
